@@ -96,3 +96,10 @@ Example C04_array_example_accepted : wt VmSimExamples.ex_arr = true /\ small_pro
 Proof. exact ex_arrays_accepted. Qed.
 Example C04_out_of_range_is_a_fault_not_stuck : run_ref 100 VmSimExamples.ex_oob = Faulted FOob [49; 10]%N.
 Proof. vm_compute. reflexivity. Qed.
+
+(* strings as computed values: accepted string programs are covered by every theorem above; an operand outside the domain on
+   which the engines agree is a fault of the reference (FStrDomain), not a stuck state *)
+Example C04_string_example_accepted : wt VmSimExamples.ex_str = true /\ small_program VmSimExamples.ex_str.
+Proof. exact ex_str_accepted. Qed.
+Example C04_string_domain_is_a_fault_not_stuck : wt VmSimExamples.ex_str_dom = true /\ run_ref 50 VmSimExamples.ex_str_dom = Faulted FStrDomain [].
+Proof. split; vm_compute; reflexivity. Qed.
